@@ -19,7 +19,9 @@ Proof. unfold len. now rewrite be_length. Qed.
 Lemma read_str16_enc k rest :
   len k < 65536 -> read_str16 (be 2 (len k) ++ k ++ rest) = (k, rest).
 Proof.
-  intro H. unfold read_str16.
+  intro H. unfold read_str16, read_u16.
+  replace (length (be 2 (len k) ++ k ++ rest) <? 2)%nat with false
+    by (symmetry; apply Nat.ltb_ge; rewrite app_length, be_length; lia).
   rewrite take_pad_app by apply be_length.
   rewrite unbe_be_small by (cbn; exact H).
   unfold len. rewrite Nat2N.id.
